@@ -55,31 +55,57 @@ Proof. split; vm_compute; reflexivity. Qed.
 
 (** *** The guard *)
 Definition zst_shape : bool :=
-  zst_found && zst_single_if && zst_then_some && zst_else_none && zcond_canonical zst_cond
-  && aligned_types_ok aligned_types.
+  zst_found && zbody_canonical zst_body && aligned_types_ok aligned_types.
 
 Lemma zst_shape_check : zst_shape = true.
 Proof. vm_compute. reflexivity. Qed.
 
-Lemma zst_canonical : zcond_canonical zst_cond = true.
+Lemma zst_canonical : zbody_canonical zst_body = true.
 Proof. vm_compute. reflexivity. Qed.
 
 Theorem zst_sound_generated : forall anchor size align maxa k j p,
   align = (2 ^ k)%N -> maxa = (2 ^ j)%N -> (anchor mod maxa = 0)%N ->
-  alloc_zst_model zst_cond anchor size align maxa = Some p ->
+  alloc_zst_model zst_body anchor size align maxa = Some p ->
   size = 0%N /\ (align <= maxa)%N /\ p = anchor /\ (p mod align = 0)%N.
 Proof.
   intros anchor size align maxa k j p Ha Hm Hanch Hres.
-  exact (zst_cond_sound zst_cond anchor size align maxa k j p zst_canonical Ha Hm Hanch Hres).
+  exact (zst_cond_sound zst_body anchor size align maxa k j p zst_canonical Ha Hm Hanch Hres).
 Qed.
 
 Theorem zst_complete_generated : forall anchor size align maxa,
-  size = 0%N -> (align <= maxa)%N -> alloc_zst_model zst_cond anchor size align maxa = Some anchor.
-Proof. intros anchor size align maxa Hs Hl. exact (zst_cond_complete zst_cond anchor size align maxa zst_canonical Hs Hl). Qed.
+  size = 0%N -> (align <= maxa)%N -> alloc_zst_model zst_body anchor size align maxa = Some anchor.
+Proof. intros anchor size align maxa Hs Hl. exact (zst_cond_complete zst_body anchor size align maxa zst_canonical Hs Hl). Qed.
 
 Theorem zst_none_generated : forall anchor size align maxa,
-  (size <> 0%N \/ (maxa < align)%N) -> alloc_zst_model zst_cond anchor size align maxa = None.
-Proof. intros anchor size align maxa H. exact (zst_cond_none zst_cond anchor size align maxa zst_canonical H). Qed.
+  (size <> 0%N \/ (maxa < align)%N) -> alloc_zst_model zst_body anchor size align maxa = None.
+Proof. intros anchor size align maxa H. exact (zst_cond_none zst_body anchor size align maxa zst_canonical H). Qed.
+
+(** The semantic check is not a syntactic accident: spelled with an early return and a De Morgan-negated
+    guard, with flipped comparisons, or nested, the body is still canonical; a weakened guard
+    ([align_of <= 2 * MAX_ALIGN] is not a comparison the model interprets; dropping the size test; [||]
+    for [&&]) is not. *)
+Definition zb_reference : zbody :=
+  ZIf (ZAnd (ZEq ZSizeOf (ZLit 0)) (ZLe ZAlignOf ZMaxAlign)) ZRetSome ZRetNone.
+Definition zb_early_demorgan : zbody :=
+  ZIf (ZOr (ZNot (ZEq ZSizeOf (ZLit 0))) (ZLt ZMaxAlign ZAlignOf)) ZRetNone ZRetSome.
+Definition zb_nested_flipped : zbody :=
+  ZIf (ZNot (ZLt (ZLit 0) ZSizeOf)) (ZIf (ZNot (ZLt ZMaxAlign ZAlignOf)) ZRetSome ZRetNone) ZRetNone.
+Definition zb_no_size_test : zbody := ZIf (ZLe ZAlignOf ZMaxAlign) ZRetSome ZRetNone.
+Definition zb_or : zbody :=
+  ZIf (ZOr (ZEq ZSizeOf (ZLit 0)) (ZLe ZAlignOf ZMaxAlign)) ZRetSome ZRetNone.
+Definition zb_swapped_leaves : zbody :=
+  ZIf (ZAnd (ZEq ZSizeOf (ZLit 0)) (ZLe ZAlignOf ZMaxAlign)) ZRetNone ZRetSome.
+Definition zb_align_lt : zbody :=
+  ZIf (ZAnd (ZEq ZSizeOf (ZLit 0)) (ZLt ZAlignOf ZMaxAlign)) ZRetSome ZRetNone.
+Definition zb_size_le_one : zbody :=
+  ZIf (ZAnd (ZLe ZSizeOf (ZLit 1)) (ZLe ZAlignOf ZMaxAlign)) ZRetSome ZRetNone.
+
+Lemma zbody_canonical_examples :
+  map zbody_canonical [zb_reference; zb_early_demorgan; zb_nested_flipped] = [true; true; true]
+  /\ map zbody_canonical [zb_no_size_test; zb_or; zb_swapped_leaves; zb_align_lt; zb_size_le_one;
+                          ZIf (ZUnknownC "x") ZRetSome ZRetNone; ZUnknownB "x"; ZRetSome; ZRetNone]
+     = [false; false; false; false; false; false; false; false; false].
+Proof. split; vm_compute; reflexivity. Qed.
 
 (** *** Macro hygiene *)
 Lemma unsafe_metavars_check : forallb metavar_harmless unsafe_metavars = true.
@@ -101,7 +127,7 @@ Proof. vm_compute. reflexivity. Qed.
 (** *** unsize! coerces raw pointers *)
 Lemma coerce_fns_check :
   forallb coerce_fn_ok (coerce_fns pub_fns) = true
-  /\ map fs_owner (coerce_fns pub_fns) = ["__CoercePtrInternal"; "Gc"; "GcWeak"].
+  /\ same_set (map fs_owner (coerce_fns pub_fns)) ["__CoercePtrInternal"; "Gc"; "GcWeak"] = true.
 Proof. split; vm_compute; reflexivity. Qed.
 
 Lemma coerce_fns_lifted : forall f, In f pub_fns -> fs_name f = "__coerce_unchecked" -> coerce_fn_ok f = true.
